@@ -84,9 +84,10 @@ SPEC = dict(
         "('latest id'), i.e. an on-path observer is covered for the no-effect claim",
         "application payloads that are themselves STUN messages by the demultiplexing rule (magic cookie + matching length + non-zero type) are demultiplexed as STUN by "
         "design (RFC 5245/7983); counted (stun_shaped_payload_not_delivered), not judged",
-        "two agents configured with the SAME role never connect: requests are dropped with 'Role conflict' and RFC 5245 7.2.1.1 "
-        "(487 / tie-breaker / role switch) is not implemented; recorded (theorem role_conflict_request_dropped, stats role_conflict_*), "
-        "not judged, because the property presupposes a role assignment (Jingle: initiator controlling, responder controlled)",
+        "OPEN FINDING C15:role-conflict-never-connects: two honest agents configured with the SAME role (glare) never connect - requests are "
+        "dropped with 'Role conflict', RFC 5245 7.1.2.2/7.2.1.1 (487 / tie-breaker / role switch) is not implemented; reproduced on two real "
+        "components (all same-role pair cases), negated in Lean (C15_defect_role_conflict_never_connects); all liveness theorems carry the "
+        "hypothesis that the roles differ; recorded rather than fixed because the repair is a protocol feature, not a small patch",
         "candidate priorities >= 2^31 (outside RFC 5245 4.1.2) make the 32-bit product 2*qMax(G,D) in CandidatePair::priority wrap; "
         "modelled faithfully, theorem pair_priority_rfc is stated for the RFC range, theorem pair_priority_wraps_beyond_rfc_range documents it",
         "component ids 1..256 (RFC range); memory safety of the datagram path is sanitizer exploration, not a theorem",
@@ -111,7 +112,9 @@ SPEC = dict(
                "(documented); fallback_changes_only_by_signalling_or_known_sender + send_goes_to_selected_else_fallback (where data goes before "
                "selection); closed_component_is_inert; superseded_password_no_effect; use_candidate_from_controlled_side_rejected; "
                "retransmission_gives_up; peer_reflexive_learned_with_request_priority; non_stun_no_effect (delivered from any source: documented). attributes_after_mi_ignored: whatever is appended behind a MESSAGE-INTEGRITY (USE-CANDIDATE, PRIORITY, further MI, unknown) "
-               "changes nothing; response_before_remote_password_dropped. Liveness: honest_pair_connects_partial (either role assignment, any "
+               "changes nothing; response_before_remote_password_dropped. Liveness, all under the hypothesis that the two roles DIFFER "
+               "(C15_defect_role_conflict_never_connects negates it for equal roles: every check dropped as role conflict, both pairs failed "
+               "after 7 transmissions; differing_roles_connect for the same schedule): honest_pair_connects_partial (either role assignment, any "
                "component and addresses, lossless in-order schedule); honest_pair_connects_despite_loss_partial (all 1024 combinations of role "
                "assignment x start order x triggered-check gap x an extra unreachable candidate per side and its position x loss of any subset of "
                "the four first transmissions: connected after three retransmission periods, kernel-evaluated) and connected_is_stable (no "
@@ -128,7 +131,8 @@ SPEC = dict(
                "The safety half is "
                "full strength since repo commit f41aa68 (before it, integrity-less messages were processed: findings "
                "C15:binding-request-without-mi-processed / C15:binding-response-without-mi-accepted, now under 'fixed'; both oracle keys "
-               "and the old witness stay in the harness). Liveness is proved for the lossless in-order schedule (all components and addresses) "
+               "and the old witness stay in the harness). Liveness is proved, for agents whose roles differ (equal roles never connect: open finding "
+               "C15:role-conflict-never-connects), for the lossless in-order schedule (all components and addresses) "
                "and for the schedules in which any subset of FIRST transmissions is lost and every retransmission arrives in order "
                "(component 1, extra candidates unreachable, kernel-evaluated over all 1024 combinations); arbitrary interleavings, repeated "
                "loss of the same message, several reachable candidates per agent and real timer behaviour "
